@@ -1,6 +1,6 @@
 import CookModel.Lemmas.Collector
 import CookModel.Lemmas.CollectorFold
-import CookModel.Lemmas.ClosingEvOK
+import CookModel.Lemmas.ClosingStream
 /-
   C06  The recipe model is referentially consistent.
 
@@ -19,6 +19,8 @@ import CookModel.Lemmas.ClosingEvOK
   taken for a definition).  `C06_holds_partial` is `C06_statement` under the hypothesis that the
   events of `pullEvents` satisfy `EvOK`; that parser-side lemma is what is still missing for
   `C06_statement` itself, and is decided on every run by the invariant oracle meanwhile.
+  UPDATE: that lemma is now proved (`C06_parser_events_ok`, Lemmas/ClosingEvOK.lean and
+  Lemmas/ClosingStream.lean), and with it `C06_holds : C06_statement`.
 -/
 namespace Cook
 variable {α : Type} [Arith α]
@@ -181,7 +183,7 @@ theorem C06_holds_partial (env : Env) (input : Str) (c : Col Rat)
 /-- the parser-side lemma: every event `pullEvents` emits satisfies `EvOK` — `parse_modifiers` sets the
     intermediate data only at an `&` token, whose REF flag it inserts (or, in the duplicate-modifier
     branch, finds already present); `timer` recovers a quantity when name and quantity are both missing;
-    no other parser emits ingredient or timer events (Lemmas/ClosingEvOK.lean) -/
+    no other parser emits ingredient or timer events (Lemmas/ClosingEvOK.lean, Lemmas/ClosingStream.lean) -/
 theorem C06_parser_events_ok (cs : CharSpec) (ext : Ext) (input : Str) :
     ∀ ev ∈ (pullEvents (α := α) cs ext input).1.toList, EvOK ev := pullEvents_evOK cs ext input
 
